@@ -61,7 +61,16 @@ Canon(sq) == Join(SortSeq(sq, LAMBDA u, w : SdRank[u] < SdRank[w]))
 NestGroup(S) == LET ks == {Canon(e) : e \in S} IN [k \in ks |-> Cardinality({e \in S : Canon(e) = k})]
 NestCases == UNION {{[fam |-> "nested", group |-> NestGroup(S), perm |-> [i \in 1..Cardinality(S) |-> f[i]]] : f \in Perms(S)} :
                       S \in {T \in SUBSET NestItems : Cardinality(T) >= 2 /\ Cardinality(T) <= (IF MaxSize > 3 THEN 3 ELSE 2)}}
-Cases == PkgCases \cup EcucCases \cup MixCases \cup NestCases
+\* named siblings of which only some carry an INDEX (BSW sub containers): the index decides first, then the name
+IdxItems == {[n |-> n, idx |-> i] : n \in {"a2", "a10", "b"}, i \in {"", "1", "2"}}
+IdxKey(e) == e.n \o "/" \o e.idx
+IdxCases == UNION {{[fam |-> "idxnamed", group |-> SetToSortSeq({IdxKey(e) : e \in S}, LAMBDA u, w : TRUE), perm |-> [i \in 1..Cardinality(S) |-> f[i]]] : f \in Perms(S)} :
+                     S \in {T \in SUBSET IdxItems : Cardinality(T) >= 2 /\ Cardinality(T) <= 3 /\ \A e1, e2 \in T : e1 # e2 => e1.n # e2.n}}
+\* an ordered container (ARGUMENTS): its children keep their order, and the reorderable content of EVERY child is sorted.
+\* A case: per argument (names z, y, x in this order) a sequence of two distinct SDG texts
+OrdInner == {sq \in [1..2 -> SdTexts] : sq[1] # sq[2]}
+OrdCases == {[fam |-> "ordered", group |-> <<Canon(i1), Canon(i2), Canon(i3)>>, perm |-> <<i1, i2, i3>>] : i1 \in OrdInner, i2 \in OrdInner, i3 \in {<<"a", "b">>, <<"c", "a">>}}
+Cases == PkgCases \cup EcucCases \cup MixCases \cup NestCases \cup IdxCases \cup OrdCases
 
 \* ------------------------------------------------------------------ (3) judging results of the real library
 \* result record: [fam, group, before (keys), after (keys), after2 (keys), res (result class), sub (subtree digests before/after as sets)]
@@ -71,6 +80,8 @@ Bag(sq) == [k \in {sq[i] : i \in 1..Len(sq)} |-> Cardinality({i \in 1..Len(sq) :
 \* cbefore / cafter: the sibling keys with the content of every sibling in canonical order (= before / after except for nested siblings)
 SortPermutesOnly(r) == Bag(r.cafter) = Bag(r.cbefore) /\ r.subafter = r.subbefore
 SortIdempotent(r) == r.after2 = r.after
+\* the children of an ordered container are not permuted (fixed: their names in content order; <<>> for the other families)
+OrderedKept(r) == r.fixedafter = r.fixedbefore
 SortNeverFails(r) == r.res = "ok"
 \* all results of one group (same siblings in different initial orders) agree
 OrderIndependent(j) == \A i \in 1..Len(Log) : (i < j /\ Log[i].fam = Log[j].fam /\ Log[i].group = Log[j].group) => Log[i].after = Log[j].after
@@ -82,6 +93,7 @@ Judge(j) == LET r == Log[j] IN
             /\ IF SortPermutesOnly(r) THEN TRUE ELSE Report(j, "SortPermutesOnly")
             /\ IF SortIdempotent(r) THEN TRUE ELSE Report(j, "SortIdempotent")
             /\ IF SortNeverFails(r) THEN TRUE ELSE Report(j, "SortNeverFails")
+            /\ IF OrderedKept(r) THEN TRUE ELSE Report(j, "OrderedKept")
             /\ IF OrderIndependent(j) THEN TRUE ELSE Report(j, "OrderIndependent")
 
 Init == CASE Mode = "order" -> x = 0 /\ TotalPreorder
